@@ -219,6 +219,15 @@ def run(prog, chk):
     if backup_rule(prog, r8) < 4:
         raise Broken("fewer than 4 BACK_UP sites in functions that test for CIF_EOF")
 
+    r9 = chk.rule("R9-token-length-copies-fresh", "a local holding the current token's length is not used after the token's recorded "
+                  "length was changed (a recovery that truncates the token, a call that scans the next one) unless it is assigned "
+                  "again: recovery loops that split a token look at its current extent", primary=False, floor=4)
+    from .. import memrules
+    if memrules.stale_state_copies(prog, r9, "parser.c", "tvalue_length",
+                                   "the loop or test still works with the extent the token had before it was shortened",
+                                   callbacks_clobber=False) < 4:
+        raise Broken("fewer than 4 locals computed from tvalue_length in parser.c")
+
     r7 = chk.rule("R7-disallowed-character-class", "the per-character validation macro reports each non-character code unit (U+FEFF, "
                   "U+FFFE/F, U+FDD0..FDEF) as CIF_DISALLOWED_CHAR and no ordinary character, in every scan function "
                   "(evaluated over the CFG for chosen code units)", primary=False, floor=5)
